@@ -85,6 +85,28 @@ def bounded_roundtrip(tier, seed):
                 f = roundtrip_case(sig, vals, off, le)
                 if f:
                     return n, f, {'signature': sig, 'values': repr(vals), 'offset': off, 'little_endian': le}
+    # variants carry the signature of THEIR content: plain Python values of one Python type but different DBus types, one
+    # after the other in one process (tuples of different shapes, objects declaring their signature per instance)
+    class PerInstance(list):
+        def __init__(self, sig, items):
+            list.__init__(self, items)
+            self.dbusSignature = sig
+    seq = [((1, 2), '(ii)', [1, 2]), ((True, 7), '(bi)', [True, 7]), (('a', 1.5), '(sd)', ['a', 1.5]), ((1,), '(i)', [1]), ((1, 2), '(ii)', [1, 2]),
+           ([1, 2], 'ai', [1, 2]), (['a'], 'as', ['a']), ({'k': 1}, 'a{si}', {'k': 1}), ({'k': 'v'}, 'a{ss}', {'k': 'v'}), (((1, 'x'), 2), '((is)i)', [[1, 'x'], 2]),
+           (PerInstance('ay', [1, 2]), 'ay', [1, 2]), (PerInstance('(yy)', [1, 2]), '(yy)', [1, 2]), (PerInstance('an', [1, 2]), 'an', [1, 2])]
+    from txdbus import marshal as _m
+    for pyv, vsig, ref in seq + seq[::-1]:
+        for le in (True, False):
+            n += 1
+            want = W.encode('v', [W.Variant(vsig, ref)], 0, le)
+            try:
+                cnt, chunks = _m.marshal('v', [pyv], 0, le)
+                got = b''.join(chunks)
+            except Exception as e:
+                got, cnt = '%s: %s' % (type(e).__name__, e), -1
+            if got != want or cnt != len(want):
+                return n, 'variant holding the Python value %r (content type %r) encoded as %s, the specification gives %s' % (
+                    pyv, vsig, got.hex() if isinstance(got, bytes) else got, want.hex()), {'value': repr(pyv), 'content_signature': vsig, 'little_endian': le}
     for ct in take:
         for _ in range(2):
             vals = [W.gen_value(ct, rnd)]
